@@ -29,13 +29,13 @@ ASSUMPTIONS = ['intervals are closed sets of extended reals (an infinite endpoin
                'exactq.cmp (Python int comparison) is correct; the finite lattice decides the definition because the relations depend on order only',
                'a number operand denotes the single exact number; the code converts it to its outward enclosure first, which may only weaken True/False to None',
                'Fraction/mpq operands, which the interval context cannot convert, are observed, not asserted']
-LEVEL_TEXT = ('exhaustive over the 7-value endpoint grid (definition evaluated over member points) + exploration: ~10^5 (quick) / '
-              '~2*10^6 (thorough) random big-endpoint comparisons decided by exact rational comparison of endpoints')
+LEVEL_TEXT = ('exhaustive over the 7-value endpoint grid (definition evaluated over member points) + exploration: ~10^6 (quick) / '
+              '~10^7 (thorough) random big-endpoint comparisons decided by exact rational comparison of endpoints')
 LEVEL_NOTE = 'exhaustive only for the stated grid sub-space; elsewhere held on what was generated; trusted base vf/exactq.cmp'
 TECHNIQUE = 'runtime reference-model monitor: every observed comparison result decided from the definition / exact endpoint comparison'
 
 NSHARDS = 16
-RANDOM = {'quick': 5000, 'thorough': 110000}
+RANDOM = {'quick': 5000, 'thorough': 50000}
 OPS = ['<', '<=', '>', '>=', '==', '!=', 'in']
 OPNAME = {'<': 'lt', '<=': 'le', '>': 'gt', '>=': 'ge', '==': 'eq', '!=': 'ne', 'in': 'in'}
 
